@@ -35,6 +35,12 @@ pub struct Session {
 }
 
 pub fn engine_bin(checked: bool) -> PathBuf {
+    // sanitizer pass: every session of the worker group runs on the instrumented binary
+    if let Ok(p) = std::env::var("VH_ENGINE_OVERRIDE") {
+        if !p.is_empty() {
+            return PathBuf::from(p);
+        }
+    }
     let var = if checked { "VH_ENGINE_BIN_CHK" } else { "VH_ENGINE_BIN" };
     PathBuf::from(std::env::var(var).unwrap_or_else(|_| {
         format!("/verif/.build/engine-{}/release/rustybait", if checked { "chk" } else { "rel" })
@@ -48,7 +54,9 @@ impl Session {
             .stdin(Stdio::piped())
             .stdout(Stdio::piped())
             .stderr(Stdio::piped())
-            .env("RUST_BACKTRACE", "0");
+            .env("RUST_BACKTRACE", "0")
+            // only read by a sanitizer runtime: one report ends the process with a status of its own
+            .env("ASAN_OPTIONS", "detect_leaks=0:halt_on_error=1:abort_on_error=0:exitcode=99:symbolize=1");
         // schedule-point delays of an outer run must not leak into this session
         for (k, _) in std::env::vars() {
             if k.starts_with("VERIF_DELAY_") || k == "VERIF_EVENT_LOG" {
